@@ -92,7 +92,9 @@ def check_sampler(ctx: Ctx, case):
                      f"{(case['sampler']['bs'], d)}", sub, case)
             return
         for j in range(d):
-            ok = np.isin(np.asarray(out[:, j], dtype=float), space.param_grid[j])
+            gj = space.param_grid[j]
+            # exact membership, evaluated in the grid's own precision (np.isin would narrow a wider grid type first)
+            ok = np.array([bool(np.any(gj == gj.dtype.type(v))) for v in np.asarray(out[:, j])])
             if not ok.all():
                 r = int(np.argmin(ok))
                 g = space.param_grid[j]
@@ -155,7 +157,7 @@ def check_model_args(ctx: Ctx, case):
     grid = cal.param_grid.param_grid
     for i, th in enumerate(seen):
         for j in range(len(grid)):
-            if th.shape != (len(grid),) or not np.isin(th[j], grid[j]):
+            if th.shape != (len(grid),) or not np.any(grid[j] == grid[j].dtype.type(th[j])):
                 ctx.fail("C03/model-simulated-off-grid", f"model invocation {i} (row {i // cfg['E']}, ensemble member "
                          f"{i % cfg['E']}) was run at {th.tolist()}: coordinate {j} is not an element of the declared grid "
                          f"[{grid[j][0]!r} .. {grid[j][-1]!r}]", sub, case)
